@@ -108,8 +108,8 @@ func getProfile(name string, seed int64) *Profile {
 		p.IdxPool = []string{"x", "xy", "n", "n.a", "x", "xy", "s", "x.y"}
 	case "twins": // C02: collections differing only in their indexes
 		p.AltIds = true
-		p.Twins = 4
-		p.Colls = 4
+		p.Twins = 5 // no index, the filtered field, the sort field, an unrelated field, seven fields at once
+		p.Colls = 5
 		p.MaxDocs = 12
 		p.SortHeavy = true
 		p.Invalid = 0.02
